@@ -72,7 +72,7 @@ theorem inv_removed_set {ctx : Ctx} {g g' : Graph} {dead : Nat → Bool}
     | dep =>
       rw [hek] at hkk
       simp only at hkk ⊢
-      rw [setSat_isDef, setSat_isDef]; exact hkk
+      rw [setSat_defTy, setSat_defTy]; exact hkk
   · rw [r.edges]
     exact (List.Sublist.filterMap _ List.filter_sublist).nodup h.argUnique
   · -- nodes
@@ -119,7 +119,7 @@ theorem inv_removed_set {ctx : Ctx} {g g' : Graph} {dead : Nat → Bool}
           cases hek : e0.kind with
           | alias j => rfl
           | arg j => rw [hek] at hk0; simp only at hk0; rw [hni] at hk0; exact absurd hk0.2.1 (by simp)
-          | dep => rw [hek] at hk0; simp only at hk0; simp [Node.isDef, hk] at hk0
+          | dep => rw [hek] at hk0; have hdd := (dep_isDef hk0).2; simp [Node.isDef, hk] at hdd
         have hsrc : dead e0.src = false := by
           cases hds : dead e0.src with
           | false => rfl
